@@ -20,7 +20,7 @@ def main():
             sr.semiring = lambda: fggs.ViterbiSemiring(dtype=sr.torch_dtype())
         res = dict(debug=__debug__)
         try:
-            b = gen.build_fgg(spec, sr.wconv, ids=j.get("ids", "explicit"), dtype=sr.torch_dtype())
+            b = gen.build_fgg(spec, sr.wconv, ids=j.get("ids", "explicit"), dtype=sr.torch_dtype(), patterned=bool(j.get("patterned")))
             if j.get("grad"):
                 for f in b.factors.values(): f.weights.requires_grad_()
             with warnings.catch_warnings(record=True) as wl:
